@@ -19,7 +19,15 @@ use crate::{
 /// If the input types are not supported.
 pub fn mod_exp_offcircuit(x: &IrValue, n: u64, m: &IrValue) -> Result<IrValue, Error> {
     match (x, m) {
-        (IrValue::BigUint(x), IrValue::BigUint(m)) => Ok(x.modpow(&BigUint::from(n), m).into()),
+        (IrValue::BigUint(x), IrValue::BigUint(m)) => {
+            // `modpow` panics on a zero modulus.
+            if m.bits() == 0 {
+                return Err(Error::Other(
+                    "modular exponentiation with a zero modulus".into(),
+                ));
+            }
+            Ok(x.modpow(&BigUint::from(n), m).into())
+        }
         _ => Err(Error::Unsupported(
             Operation::ModExp(n),
             vec![x.get_type(), m.get_type()],
